@@ -112,7 +112,7 @@ func drawH01(t *rapid.T) h01Case {
 			Prefix:  rapid.IntRange(0, maxPrefix).Draw(t, l+"prefix"),
 			V6:      !c.Focus && rapid.IntRange(0, 4).Draw(t, l+"v6") == 0,
 			PathID:  rapid.IntRange(1, 2).Draw(t, l+"pathid"),
-			Variant: rapid.IntRange(0, 5).Draw(t, l+"variant"),
+			Variant: rapid.IntRange(0, 6).Draw(t, l+"variant"),
 			N:       rapid.IntRange(2, 5).Draw(t, l+"n"),
 		}
 		c.Ops = append(c.Ops, op)
@@ -182,6 +182,8 @@ func h01Attrs(p *rsPeer, v6 bool, variant int, tag uint32) rsAttrs {
 		a.Origin = 2
 	case 4:
 		a.ASPath = []rsSeg{{T: 2, AS: []uint32{first, 65002}}} // contains a possible neighbour AS: loop prevention towards it
+	case 6:
+		a.ASPath = []rsSeg{{T: 2, AS: []uint32{first, 100}}, {T: 1, AS: []uint32{65002, 65010}}} // a possible neighbour AS in an AS_SET only
 	default:
 		a.ASPath = []rsSeg{{T: 2, AS: []uint32{first, rsLocalAS, 300}}} // own AS: not usable
 	}
@@ -192,6 +194,9 @@ func h01Attrs(p *rsPeer, v6 bool, variant int, tag uint32) rsAttrs {
 		}
 		if variant == 5 {
 			a.ASPath = []rsSeg{{T: 2, AS: []uint32{700, rsLocalAS}}}
+		}
+		if variant == 6 {
+			a.ASPath = []rsSeg{{T: 2, AS: []uint32{100}}, {T: 1, AS: []uint32{65002, 65010}}}
 		}
 		a.LocalPref = int64(100 + 10*(variant%3))
 	}
